@@ -233,10 +233,6 @@ def _inject_check(mod):
     import multiprocess
     info = {'start_method': multiprocess.get_start_method(), 'pathos': bool(mod.pathos_installed)}
 
-    def nested():
-        return open  # noqa
-
-    nested.__globals__  # noqa
     fn = mod.multiprocessing_run
     payload = dill.dumps(fn.__globals__)
     info['globals_by_ref'] = len(payload) < 400 and b'__dict__' in payload
